@@ -24,9 +24,15 @@ var classes = map[string]weights{
 	"control": {send: 15, ctl: 12, next: 25, dup: 8, mut: 15, junk: 10, cls: 3, read: 10, write: 8, sctl: 4},
 	// roaming: genuine packets from changing addresses, forged/replayed ones from other addresses, sends in between
 	"roam": {send: 25, next: 30, dup: 10, mut: 15, junk: 5, write: 25, read: 8, roam: 12},
+	// byte-exact class: the Coq checker runs the Kravatte-SANSE model itself (no AEAD oracle inputs);
+	// both directions, tampered copies, control, roaming; few packets per case
+	"byte-exact": {send: 22, ctl: 3, next: 22, dup: 8, mut: 16, refl: 6, junk: 4, write: 18, sctl: 2, read: 8, roam: 4},
 	// everything
 	"mixed": {send: 22, ctl: 3, jump: 3, next: 18, dup: 12, mut: 18, refl: 8, junk: 6, write: 10, sctl: 2, cls: 1, read: 12, roam: 5},
 }
+
+// payload sizes of the byte-exact class: around the 200-byte Kravatte block, and the empty message
+var exactSizes = []int{0, 1, 2, 16, 17, 31, 100, 199, 200, 201, 300}
 
 var msgSizes = []int{0, 0, 1, 1, 2, 3, 7, 8, 9, 15, 16, 17, 31, 32, 33, 47, 48, 49, 64}
 
@@ -132,6 +138,11 @@ func (s *sim) junk() ([]byte, string) {
 func runCase(r *hv.Rand, prop, class string, idx int) {
 	s := newSim(r, prop, class, -1)
 	w := classes[class]
+	sizes := msgSizes
+	if class == "byte-exact" {
+		s.exact = true
+		sizes = exactSizes
+	}
 	total := w.send + w.ctl + w.jump + w.next + w.dup + w.mut + w.refl + w.junk + w.write + w.sctl + w.cls + w.read + w.roam
 	next := make([]int, len(s.fs)) // per session: index into its in-order list
 	inorder := func(i int) []*dg {
@@ -172,10 +183,13 @@ func runCase(r *hv.Rand, prop, class string, idx int) {
 	// a few messages up front so the adversary has material
 	for i := range s.fs {
 		for k := 0; k < 1+r.Intn(3); k++ {
-			s.peerSend(i, s.msg(hv.Pick(r, msgSizes)))
+			s.peerSend(i, s.msg(hv.Pick(r, sizes)))
 		}
 	}
 	steps := 10 + r.Intn(hv.Scale(16, 40))
+	if s.exact {
+		steps = 8 + r.Intn(8)
+	}
 	for st := 0; st < steps; st++ {
 		i := r.Intn(len(s.fs))
 		x := r.Intn(total)
@@ -189,7 +203,7 @@ func runCase(r *hv.Rand, prop, class string, idx int) {
 		}
 		switch {
 		case pick(w.send):
-			sz := hv.Pick(r, msgSizes)
+			sz := hv.Pick(r, sizes)
 			if class == "faithful" && r.Chance(5) {
 				sz = hv.Pick(r, []int{200, 1000})
 			}
@@ -198,7 +212,7 @@ func runCase(r *hv.Rand, prop, class string, idx int) {
 			s.peerCtl(i, hv.Pick(r, [][]byte{{1}, {1}, {1}, {}, {2}, {0}, {1, 1}, {1, 0}}))
 		case pick(w.jump):
 			s.peerJump(i, hv.Pick(r, []uint64{1, 63, 64, 447, 448, 449, 512, 600, 5000}))
-			s.peerSend(i, s.msg(hv.Pick(r, msgSizes)))
+			s.peerSend(i, s.msg(hv.Pick(r, sizes)))
 		case pick(w.next):
 			l := inorder(i)
 			if next[i] < len(l) {
@@ -253,7 +267,7 @@ func runCase(r *hv.Rand, prop, class string, idx int) {
 			if r.Bool() {
 				k = kWR
 			}
-			s.write(k, i, 0x10, s.msg(hv.Pick(r, msgSizes)))
+			s.write(k, i, 0x10, s.msg(hv.Pick(r, sizes)))
 		case pick(w.sctl):
 			s.write(kSD, i, 0x80, hv.Pick(r, [][]byte{{1}, {}, {2}}))
 		case pick(w.cls):
@@ -272,7 +286,7 @@ func runCase(r *hv.Rand, prop, class string, idx int) {
 			home[i] = other(home[i])
 			s.desc = append(s.desc, fmt.Sprintf("peer%d roams to a%d", i, home[i]))
 			// the roamed peer speaks from its new address
-			s.peerSend(i, s.msg(hv.Pick(r, msgSizes)))
+			s.peerSend(i, s.msg(hv.Pick(r, sizes)))
 			l := inorder(i)
 			d := l[len(l)-1]
 			if next[i] == len(l)-1 {
@@ -280,7 +294,7 @@ func runCase(r *hv.Rand, prop, class string, idx int) {
 			}
 			s.feed(d.b, home[i], d.name)
 			if r.Chance(60) {
-				s.write(kWM, i, 0x10, s.msg(hv.Pick(r, msgSizes)))
+				s.write(kWM, i, 0x10, s.msg(hv.Pick(r, sizes)))
 			}
 		}
 	}
@@ -307,6 +321,10 @@ func Run(prop string) {
 		bigWrites(r)
 		readPacketCases(r)
 		concurrentWriters(r)
+		for k := 0; k < hv.Scale(36, 400); k++ {
+			runCase(r, prop, "byte-exact", idx)
+			idx++
+		}
 		order := []string{"faithful", "dup-reorder", "bitflip", "reflect-cross", "control", "mixed"}
 		n := hv.Scale(600, 12000)
 		for k := 0; k < n; k++ {
@@ -316,6 +334,10 @@ func Run(prop string) {
 	} else {
 		r = hv.NewRand(hv.Seed() ^ 0xC15)
 		roamUDP(r)
+		for k := 0; k < hv.Scale(10, 100); k++ {
+			runCase(r, prop, "byte-exact", idx)
+			idx++
+		}
 		order := []string{"roam", "roam", "mixed", "control", "dup-reorder"}
 		n := hv.Scale(400, 8000)
 		for k := 0; k < n; k++ {
